@@ -100,6 +100,9 @@ void RetireList<T, D>::retire(T* data) {
   }
   do {
     node->next = get_node(head);
+    // head may just have been refreshed by a failed CAS: the stamp must not
+    // be older than that observation, or tables retired meanwhile expire early
+    new_head = make_head(node, get_current_timestamp());
   } while (!_head.compare_exchange_weak(head, new_head,
                                         ::std::memory_order_acq_rel));
 }
